@@ -607,6 +607,174 @@ def unit_locked_closures(eng, tier, prop):
     return u.result()
 
 
+def build_fn_mocker(eng, name, K, mode=None):
+    fm = lazy_adt("FnMocker", name)
+    pats = [Cell(Opaque("call_pattern::CallPattern", f"{name}.pat{k}"), "call_pattern::CallPattern", f"{name}.pat{k}") for k in range(K)]
+    fm.fields[(None, field_index(eng, "FnMocker", "call_patterns"))] = Cell(VecVal(None, pats, "Vec"), None, f"{name}.call_patterns")
+    if mode is not None:
+        fm.fields[(None, field_index(eng, "FnMocker", "pattern_match_mode"))] = Cell(Adt("PatternMatchMode", eng.variant_index("PatternMatchMode", mode)), None, f"{name}.mode")
+    return fm
+
+
+def build_dynctx(eng, M, K=2):
+    st = lazy_adt("SharedState", "state")
+    entries = []
+    for i in range(M):
+        entries.append((Cell(Int(eng.named(f"key{i}", 64), 64, False), None, f"key{i}"), Cell(build_fn_mocker(eng, f"mocker{i}", K), "FnMocker", f"mocker{i}")))
+    st.fields[(None, field_index(eng, "SharedState", "fn_mockers"))] = Cell(MapVal(entries), None, "state.fn_mockers")
+    ctx = lazy_adt("DynCtx", "ctx")
+    ctx.fields[(None, field_index(eng, "DynCtx", "shared_state"))] = Cell(Ref(Cell(st, None, "state")), None, "ctx.shared_state")
+    return Ref(Cell(ctx, "DynCtx", "ctx")), ctx, st
+
+
+def unit_eval_dyn(eng, tier, prop):
+    """C07 (+C01 isolation, C02/C05 plumbing): the decision table of eval_dyn for every combination of
+    {method present?, has_default_impl, partial_by_default, fallback mode, scan result, responder available?}."""
+    Mmax = 2
+    u = Unit(eng, "eval_dyn", ["DynCtx::eval_dyn"],
+             f"method table with M=0..{Mmax} entries (symbolic keys, symbolic called type id), 2 patterns per method; match_call_pattern and next_responder summarised by their proved contracts (Kani units c01_scan_first_match / c04_in_order_step / c02_next_responder_step)")
+    f = eng.find_fn(r"::eval_dyn$")
+    i_info = field_index(eng, "DynCtx", "info")
+    i_tid = field_index(eng, "MockFnInfo", "type_id")
+    i_def = field_index(eng, "MockFnInfo", "has_default_impl")
+    i_par = field_index(eng, "MockFnInfo", "partial_by_default")
+    i_fb = field_index(eng, "SharedState", "fallback_mode")
+    tid = eng.named(f"ctx.{i_info}.{i_tid}", 64)
+    has_def = eng.named_bool(f"ctx.{i_info}.{i_def}")
+    part = eng.named_bool(f"ctx.{i_info}.{i_par}")
+    fb = eng.named(f"state.{i_fb}.discr", 64)
+    FB_ERR, FB_UNMOCK = eng.variant_index("FallbackMode", "Error"), eng.variant_index("FallbackMode", "Unmock")
+
+    rx1 = re.compile(r"^DynCtx::match_call_pattern$")
+
+    def h_scan(call):
+        fm = call.argv[1]
+        k = eng.decide(call.m, ("scan", call.fr.bb), [eng.named("scan.result", 64) == i for i in range(4)])
+        call.m.event("scan", fm.cell.name if isinstance(fm, Ref) else "?")   # NB: side effects only after decide()
+        # 0: Ok(None)  1: Ok(Some(pattern 0))  2: Ok(Some(pattern 1))  3: Err(e)
+        if k == 0:
+            return eng.mk_enum("Result", "Ok", eng.mk_enum("Option", "None"))
+        if k == 3:
+            return eng.mk_enum("Result", "Err", Opaque("error::MockError", "scan_error"))
+        fmv = call.deref(fm, "adt")
+        pats = fmv.fields[(None, field_index(eng, "FnMocker", "call_patterns"))].val
+        t = Adt("(tuple)", None)
+        pi = Adt("PatIndex", None)
+        pi.fields[(None, 0)] = Cell(bv(k - 1), None, "pi")
+        t.fields[(None, 0)] = Cell(pi, None, "t0")
+        t.fields[(None, 1)] = Cell(Ref(pats.items[k - 1]), None, "t1")
+        return eng.mk_enum("Result", "Ok", eng.mk_enum("Option", "Some", t))
+    rx2 = re.compile(r"^CallPattern::next_responder$")
+
+    def h_next(call):
+        who = call.argv[0].cell.name
+        k = eng.decide(call.m, ("next", call.fr.bb), [eng.named_bool("responder.available"), z3.Not(eng.named_bool("responder.available"))])
+        call.m.event("next_responder", who)
+        if k == 0:
+            return eng.mk_enum("Option", "Some", Ref(Cell(Opaque("DynResponder", f"resp[{who}]"), None, f"resp[{who}]")))
+        return eng.mk_enum("Option", "None")
+
+    def cb(call, fobj, args):
+        pat = args[0].cell.name if args and isinstance(args[0], Ref) else "?"
+        rep = args[1] if len(args) > 1 else None
+        diag = isinstance(rep, Adt) and rep.discr == eng.variant_index("Option", "Some")
+        call.m.event("matcher", pat, diag)
+        return lazy_adt("Result", f"verdict#{next(eng.fresh_n)}")
+    eng.handlers.insert(0, (rx1, h_scan))
+    eng.handlers.insert(0, (rx2, h_next))
+    eng.callback_hook = cb
+    opaque = [r"^DynCtx::fn_call$", r"^FnMocker::debug_pattern$", r"^Mismatches::builder$", r"^MismatchesBuilder::(collect_from_reporter|build)$", r"^MismatchReporter::new_enabled$"]
+    try:
+        with opaque_calls(eng, opaque):
+            for M in range(0, Mmax + 1):
+                ref, ctx, st = build_dynctx(eng, M)
+                paths = u.explore(f, [ref, Ref(Cell(Opaque("dyn Fn", "match_inputs"), None, "match_inputs"))], note=f"[M={M}]")
+                keys = [eng.named(f"key{i}", 64) for i in range(M)]
+                present = z3.Or([tid == k for k in keys]) if keys else z3.BoolVal(False)
+                scan = eng.named("scan.result", 64)
+                avail = eng.named_bool("responder.available")
+                kinds = set()
+                for p in paths:
+                    if p.outcome[0] != "return":
+                        if p.outcome[0] == "panic":
+                            u.must_be_true(f"C07.eval_dyn-never-panics-itself[M={M}]", False, {"site": p.outcome[1]})
+                        continue
+                    val = p.outcome[1]
+                    scans = events(p, "scan")
+                    nexts = events(p, "next_responder")
+                    got = events(p, "map_get")
+                    hit = got[0][1] if got else None
+                    ctxd = {"M": M, "hit": hit}
+                    is_ok = val.discr == eng.variant_index("Result", "Ok")
+                    payload = val.fields[("Ok" if is_ok else "Err", 0)].val
+                    if hit is None:
+                        # ---- unmentioned method: default impl > partial-by-default > fallback mode; nothing is scanned or counted
+                        u.must_hold(f"C07.absent-means-no-key-matches[M={M}]", p.pc, z3.Not(present), ctxd)
+                        u.must_be_true(f"C07.unmentioned-never-scans-or-counts[M={M}]", not scans and not nexts and not events(p, "matcher"), ctxd)
+                        if is_ok:
+                            kind = eng.enums["EvalResult"][payload.discr]
+                            kinds.add("absent:" + kind)
+                            if kind == "CallDefaultImpl":
+                                u.must_hold(f"C07.unmentioned-default-impl-first[M={M}]", p.pc, has_def, ctxd)
+                            elif kind == "Unmock":
+                                u.must_hold(f"C07.unmentioned-unmock-cond[M={M}]", p.pc, z3.And(z3.Not(has_def), z3.Or(part, fb == FB_UNMOCK)), ctxd)
+                            else:
+                                u.must_be_true(f"C07.unmentioned-never-gets-a-responder[M={M}]", False, ctxd)
+                        else:
+                            kinds.add("absent:Err")
+                            u.must_be_true(f"C07.unmentioned-error-kind[M={M}]", isinstance(payload, Adt) and payload.discr == eng.variant_index("MockError", "NoMockImplementation"), ctxd)
+                            u.must_hold(f"C07.unmentioned-error-cond[M={M}]", p.pc, z3.And(z3.Not(has_def), z3.Not(part), fb == FB_ERR), ctxd)
+                    else:
+                        # ---- mentioned method: exactly its own FnMocker is scanned (C01 isolation / C18)
+                        u.must_hold(f"C01.present-means-that-key[M={M}]", p.pc, tid == keys[hit], ctxd)
+                        u.must_be_true(f"C01.only-the-called-methods-patterns-scanned[M={M}]", [e[1] for e in scans] == [f"mocker{hit}"], {"scans": scans})
+                        u.must_be_true(f"C01.counter-bumped-only-for-selected-pattern[M={M}]", all(e[1].startswith(f"mocker{hit}.pat") for e in nexts) and len(nexts) <= 1, {"nexts": nexts})
+                        if is_ok:
+                            kind = eng.enums["EvalResult"][payload.discr]
+                            kinds.add("present:" + kind)
+                            if kind == "Responder":
+                                u.must_hold(f"C07.responder-only-after-a-match[M={M}]", p.pc, z3.And(z3.Or(scan == 1, scan == 2), avail), ctxd)
+                                er = payload.fields[("Responder", 0)].val
+                                fmc = er.fields[(None, field_index(eng, "EvalResponder", "fn_mocker"))].val
+                                drc = er.fields[(None, field_index(eng, "EvalResponder", "dyn_responder"))].val
+                                sel = nexts[0][1] if nexts else None
+                                u.must_be_true(f"C02.responder-of-the-selected-pattern[M={M}]", isinstance(drc, Ref) and drc.cell.name == f"resp[{sel}]" and isinstance(fmc, Ref) and fmc.cell.name == f"mocker{hit}", ctxd)
+                                u.must_be_true(f"C01.selected-pattern-is-the-scan-result[M={M}]", len(nexts) == 1, ctxd)
+                                for kk in (1, 2):
+                                    if sel == f"mocker{hit}.pat{kk - 1}":
+                                        u.must_hold(f"C01.scan-result-identity[M={M}]", p.pc, scan == kk, ctxd)
+                            elif kind == "Unmock":
+                                u.must_hold(f"C07.mentioned-unmatched-partial-unmocks[M={M}]", p.pc, z3.And(scan == 0, fb == FB_UNMOCK), ctxd)
+                                u.must_be_true(f"C07.unmatched-never-counts[M={M}]", not nexts, ctxd)
+                            else:
+                                u.must_be_true(f"C07.mentioned-never-default-impl-from-table[M={M}]", False, ctxd)
+                        else:
+                            ek = eng.enums["MockError"][payload.discr] if isinstance(payload, Adt) and isinstance(payload.discr, int) else ("scan_error" if isinstance(payload, (Opaque, Adt)) else "?")
+                            kinds.add("present:Err:" + ek)
+                            if ek == "NoMatchingCallPatterns":
+                                u.must_hold(f"C07.mentioned-unmatched-strict-errors[M={M}]", p.pc, z3.And(scan == 0, fb == FB_ERR), ctxd)
+                                u.must_be_true(f"C07.unmatched-never-counts[M={M}]", not nexts, ctxd)
+                                ms = events(p, "matcher")
+                                u.must_be_true(f"C19.mismatch-report-visits-every-pattern-with-diagnostics[M={M}]",
+                                               [(e[1], e[2]) for e in ms] == [(f"mocker{hit}.pat0", True), (f"mocker{hit}.pat1", True)], {"matcher": ms})
+                            elif ek == "NoOutputAvailableForCallPattern":
+                                u.must_hold(f"C02.no-output-only-when-no-responder[M={M}]", p.pc, z3.And(z3.Or(scan == 1, scan == 2), z3.Not(avail)), ctxd)
+                            else:
+                                u.must_hold(f"C07.scan-error-propagates[M={M}]", p.pc, scan == 3, ctxd)
+                                u.must_be_true(f"C07.scan-error-never-counts[M={M}]", not nexts, ctxd)
+                dom = [z3.ULE(scan, 3), z3.ULE(fb, 1)]
+                u.must_be_unsat(f"C07.table-complete[M={M}]", dom + [z3.Not(z3.Or([z3.And(p.pc) if p.pc else z3.BoolVal(True) for p in paths if p.outcome[0] == "return"]))])
+                need = {"absent:CallDefaultImpl", "absent:Unmock", "absent:Err"}
+                if M:
+                    need |= {"present:Responder", "present:Unmock", "present:Err:NoMatchingCallPatterns", "present:Err:NoOutputAvailableForCallPattern", "present:Err:scan_error"}
+                u.witness(f"all table cells reachable[M={M}] missing={sorted(need - kinds)}", [z3.BoolVal(need <= kinds)])
+    finally:
+        eng.handlers.remove((rx1, h_scan))
+        eng.handlers.remove((rx2, h_next))
+        eng.callback_hook = None
+    return u.result()
+
+
 def unit_todo(eng, tier, prop):
     u = Unit(eng, "todo", [], "")
     u.errors.append("unit not implemented yet")
@@ -614,6 +782,7 @@ def unit_todo(eng, tier, prop):
 
 
 UNITS = {
+    "eval_dyn": unit_eval_dyn,
     "locked_closures": unit_locked_closures,
     "induce_panic": unit_induce_panic,
     "teardown": unit_teardown,
